@@ -71,13 +71,22 @@ def rule_fallback(ctx, r):
     r.check(via, f"{mp.module.relpath}::{mp.qual}", "map creates its targets through target_from_template", "map does not create its targets through target_from_template", mp.where)
     # default working dir of the workflow: directory of the real path of the defining file
     gwd = idx.method(wf, "_get_working_dir")
-    txt = ast.unparse(gwd.node) if gwd else ""
-    ok = gwd is not None and "inspect.getfile(sys._getframe(" in txt and any(
-        ast.unparse(n.value).replace(" ", "") in ("os.path.dirname(os.path.realpath(filename))", "str(Path(filename).resolve().parent)", "os.path.realpath(os.path.dirname(filename))")
-        for n in walk_no_nested(gwd.node) if isinstance(n, ast.Return))
-    r.check(ok, f"{wf.module.relpath}::Workflow._get_working_dir", "default working_dir = dirname(realpath(file that created the workflow))",
-            "the workflow's default working directory is not the directory of the *real* path of the defining file: a project reached through a symlink (or `-f` from elsewhere) "
-            "gets other path strings than when gwf is run inside the project, so graphs differ", gwd.where if gwd else wf.where)
+    got = None
+    if gwd is not None:
+        # evaluated: the defining file is reached as /link/proj/workflow.py, where /link is a symbolic link to /real; whatever way the directory is computed
+        # (os.path, pathlib) the default must be the directory of the file's real path, as a string
+        from ..symeval import SymPath
+        real = lambda p_: str(p_).replace("/link/", "/real/", 1) if str(p_).startswith("/link/") else str(p_)
+        hooks = {"inspect.getfile": lambda *a, **k: "/link/proj/workflow.py", "sys._getframe": lambda *a, **k: Obj("frame"), "inspect.stack": lambda *a, **k: [],
+                 "inspect.currentframe": lambda *a, **k: Obj("frame"),
+                 "os.path.realpath": lambda p_, *a, **k: real(p_), "attr:resolve": lambda recv, *a, **k: SymPath(real(recv)), "os.path.abspath": lambda p_: str(p_)}
+        try:
+            got = PureInterp(ctx, hooks=hooks).call(gwd, (), {}, self_obj=Obj("workflow", **{"__class__": wf}))
+        except (Raised, Unsupported) as exc:
+            got = f"<{exc}>"
+    r.check(got == "/real/proj", f"{wf.module.relpath}::Workflow._get_working_dir", "default working_dir = directory of the real path of the file that created the workflow (a str)",
+            f"for a workflow file reached as /link/proj/workflow.py (with /link a symbolic link to /real) the default working directory is {got!r}, expected '/real/proj': a project "
+            "reached through a symlink (or `-f` from elsewhere) gets other path strings than when gwf is run inside the project, so graphs differ", gwd.where if gwd else wf.where)
 
 
 CWD_SOURCES = {"os.getcwd", "os.getcwdb", "pathlib.Path.cwd", "os.curdir", "os.path.curdir"}
@@ -112,7 +121,11 @@ def rule_cwd_taint(ctx, r):
                 a = node.args[0]
                 if isinstance(a, ast.Name):
                     a = single_assignments(f.node).get(a.id, a)
-                joined = isinstance(a, ast.Call) and isinstance(a.func, (ast.Name, ast.Attribute)) and idx.canon(a.func, f.module) == "os.path.join" and a.args and "working_dir" in ast.unparse(a.args[0])
+                jc = idx.canon(a.func, f.module) if isinstance(a, ast.Call) and isinstance(a.func, (ast.Name, ast.Attribute)) else None
+                # os.path.join(wd, p), Path(wd, p) / PurePath(wd, p), Path(wd).joinpath(p), Path(wd) / p : joined to a working directory first
+                joined = (jc in ("os.path.join", "pathlib.Path", "pathlib.PurePath", "pathlib.PurePosixPath", "pathlib.PosixPath") and bool(a.args) and "working_dir" in ast.unparse(a.args[0])) \
+                    or (isinstance(a, ast.Call) and isinstance(a.func, ast.Attribute) and a.func.attr == "joinpath" and "working_dir" in ast.unparse(a.func.value)) \
+                    or (isinstance(a, ast.BinOp) and isinstance(a.op, ast.Div) and "working_dir" in ast.unparse(a.left))
                 n += 1
                 r.check(joined or f.key in allowed, f"{f.module.relpath}::{f.qual}::{canon}", "abspath of a path joined to a working directory",
                         f"`{ast.unparse(node)[:70]}` resolves a path against the invoking directory (it is not joined to a project/target working directory first)",
